@@ -37,6 +37,8 @@ type z4Op struct {
 	Template string `json:"template,omitempty"`
 	// Dash: the model file is named by the other accepted spelling of its digest, "sha256-<hex>"
 	Dash bool `json:"dash,omitempty"`
+	// Streamed: the request asks for the streamed (NDJSON) answer; success = the last line says so and no line carries an error
+	Streamed bool `json:"streamed,omitempty"`
 }
 
 func (o z4Op) extras() string {
@@ -49,6 +51,9 @@ func (o z4Op) extras() string {
 	}
 	if o.Dash {
 		s += ",digest spelled sha256-"
+	}
+	if o.Streamed {
+		s += ",streamed"
 	}
 	return s
 }
@@ -100,7 +105,10 @@ func z4Alphabet(thorough bool) []z4Op {
 		z4Op{Kind: "create", Name: "b", GGUF: 2, Dash: true},
 		// the default namespace in another letter case, and a pull by short name from the default registry
 		z4Op{Kind: "create", Name: "Library/a", GGUF: 1},
-		z4Op{Kind: "pullh", Name: "a"})
+		z4Op{Kind: "pullh", Name: "a"},
+		// streamed creates from a model that is neither in the store nor on the registry, onto a new and onto an existing name
+		z4Op{Kind: "from", Name: "b", Src: "nosuch", Streamed: true},
+		z4Op{Kind: "from", Name: "a", Src: "nosuch", System: "S2", Streamed: true})
 	return l
 }
 
@@ -160,6 +168,12 @@ func (w *z12World) z4Apply(o z4Op) (bool, string) {
 		mcrt.WaitIdle(false)
 		return code == 200, body
 	case "from":
+		if o.Streamed {
+			yes := true
+			code, body := ztCall(w.h, "POST", "/api/create", api.CreateRequest{Model: o.Name, From: o.Src, System: o.System, Template: o.Template, License: z4License(o), Stream: &yes})
+			mcrt.WaitIdle(false)
+			return code == 200 && !strings.Contains(body, `"error"`) && strings.Contains(body, `"success"`), body
+		}
 		code, body := ztCall(w.h, "POST", "/api/create", api.CreateRequest{Model: o.Name, From: o.Src, System: o.System, Template: o.Template, License: z4License(o), Stream: &stream})
 		mcrt.WaitIdle(false)
 		return code == 200, body
